@@ -486,7 +486,7 @@ def _common_inject(scratch, env_cfg):
     lib = os.path.join(tsrc, "lib.rs")
     lt = open(lib).read()
     if "feature(allocator_api)" not in lt:
-        lt = "#![cfg_attr(kani, feature(allocator_api))]\n" + lt
+        lt = "#![cfg_attr(kani, feature(allocator_api))]\n#![cfg_attr(kani, recursion_limit = \"1024\")]\n" + lt
     if "pub mod nd;" not in lt:
         lt += "\n#[cfg(any(kani, verif_replay))]\n#[allow(missing_docs, dead_code, unused_imports, unused_macros)]\n#[path = \"verif_nd.rs\"]\npub mod nd;\n"
     if "mod verif_env;" not in lt:
@@ -527,6 +527,17 @@ def inject_server_table_overlay(scratch):
                "#[cfg(not(%s))]\nuse std::collections::hash_map;\n#[cfg(%s)]\nuse crate::verif_env::hash_map;" % (cfg, cfg, cfg, cfg))])
     with open(f, "a") as fh:
         fh.write("\n#[cfg(%s)]\n#[path = \"verif_overlay_sift.rs\"]\nmod verif_overlay_sift;\n" % cfg)
+
+
+def inject_server_channel_overlay(scratch):
+    """BaseChannel: server table swaps + tokio mpsc model in cancellations.rs + harness as a child of `server`."""
+    inject_server_table_overlay(scratch)
+    tsrc = os.path.join(scratch.repo, "tarpc", "src")
+    cfg = "any(kani, verif_replay)"
+    _swap(os.path.join(tsrc, "cancellations.rs"), [("use tokio::sync::mpsc;", "#[cfg(not(%s))]\nuse tokio::sync::mpsc;\n#[cfg(%s)]\nuse crate::verif_env::mpsc;" % (cfg, cfg))])
+    shutil.copy(os.path.join(VERIF, "experiments", "tarpc_overlay_chan.rs"), os.path.join(tsrc, "server", "verif_overlay_chan.rs"))
+    with open(os.path.join(tsrc, "server.rs"), "a") as fh:
+        fh.write("\n#[cfg(%s)]\n#[path = \"server/verif_overlay_chan.rs\"]\nmod verif_overlay_chan;\n" % cfg)
 
 
 def inject_client_table_overlay(scratch):
